@@ -265,3 +265,16 @@ package ast
 //@   props C13
 //@   requires f != nil
 //@   include parsley.Interpreter.Eval
+
+//@ -- ------------------------------------------------------------ renderers: read-only, total on a node that exists
+//@ func (n *NonTerminalNode) String() (r string)
+//@   props C07,C14
+//@   requires n != nil
+//@   assigns  nothing
+//@ func (t *TerminalNode) String() (r string)
+//@   props C07,C14
+//@   requires t != nil
+//@   assigns  nothing
+//@ func (e EmptyNode) String() (r string)
+//@   props C07,C14
+//@   assigns  nothing
